@@ -28,7 +28,7 @@ STEPS = ["proximal", "inexact_gradient", "exact_linesearch", "inexact_proximal",
 
 
 def plan(tier, seed):
-    n = 40 if tier == "quick" else 1500
+    n = 300 if tier == "quick" else 30000
     return [{"name": "s%d" % i, "seed": seed, "shard": i, "n": n} for i in range(NSHARDS)]
 
 
